@@ -47,6 +47,12 @@ MANIFEST = dict(
          "legal move listed by AllMoves (C04_live_has_legal_move); abstract root-search invariant: generator yields only applied moves and "
          "loses none, the root PV head is legal for every search below the root (C04_root_first_move_legal), instantiated on the bit-level "
          "model (C04_analyze_first_move_legal_partial); deepening loop, randomised choice and AnalyzeAll keep legal heads. "
+         "For the EXECUTED engine model coq/Search.v (replayed against ai/minimax.go + ai/moves.go by the C05/C16 checks): "
+         "C04_analyze_first_move_legal - every configuration (any table, null move, slide reduction, multi-cut, sorting), any "
+         "cancellation point, any engine history (state invariant SJ, kept by every call): a reported line is empty or starts with a "
+         "move MovePreallocated accepts, and a call not reported as cancelled reports one; the window hypothesis is derived (every "
+         "search value lies in [MinEval, MaxEval], from C18 and C04_live_has_legal_move), the table seed is covered by an explicit "
+         "NoCollision hypothesis on the root entry; boards up to 5x5 / 51 pieces without any side condition (_small, _game). "
          "Monte-Carlo player: model coq/Mcts.v executed against ai/mcts pass by pass; every returned move legal for any random stream, "
          "score function and clock (C04_mcts_getmove_legal); no-panic partial. "
          "Opening book: model coq/Opening.v (BuildOpeningBook, OpeningBook.GetMove, OpeningPlayer.GetMove) executed against ai/opening.go "
@@ -58,8 +64,9 @@ MANIFEST = dict(
          "(C04_game_positions_satisfy_query_hypotheses), GetMove never panics below 2^28 book words (C04_opening_book_get_move_no_panic), non-vacuity on a concrete book. The model's legal move sets and its verdict on "
          "every returned move are compared with the implementation on every run.",
     ref='5.4', technique='independent Go oracle (rules + replay) over players x configurations + Coq invariant proofs + model/implementation differential on legality, MCTS passes and the opening book',
-    note="Partial on the proof side: the alpha-beta root-search model is abstract (not executed against ai/minimax.go), the value-window "
-         "hypothesis is assumed, whole-PV replay is covered by the oracle only; MCTS no-panic assumes evaluator totality and <= 64 pieces; "
+    note="Partial on the proof side: Analyze's first move is proved legal on the executed model (larger boards under the side condition withinP: "
+         "at most 690 generated moves per searched node - the model's loop fuel - and C01's 64-stack limit); GetMove's randomised choice and "
+         "AnalyzeAll are proved on the abstract root-search model only; whole-PV replay is covered by the oracle only; MCTS no-panic assumes evaluator totality and <= 64 pieces; "
          "opening book: 'GetMove never panics' is proved for books below 2^28 words (C04_opening_book_get_move_no_panic; beyond it rand.Int31n's argument wraps, in the code as in the model); "
          "NoCollisionOn and reserves_match_board / opening_consistent of the queried position are explicit hypotheses (a position with "
          "non-default piece counts can share a book position's hash and squares without sharing its legal moves). Found and repaired through "
